@@ -200,7 +200,8 @@ def tlc_expect_violation(scratch, module, cfg, inv):
     """A configuration that documents a design-level finding: TLC must find the violation."""
     d = scratch.sub("mcx-" + cfg.replace(".cfg", ""))
     V.stage_specs(d, cfg)
-    p = V.run(["tlc", "-workers", "4", "-metadir", os.path.join(d, "md"), "-config", cfg, module + ".tla"], cwd=d, timeout=600, check=False)
+    p = V.run(["tlc", "-workers", "4", "-metadir", os.path.join(d, "md"), "-config", cfg, module + ".tla"], cwd=d, timeout=600, check=False,
+              extra_env={"JAVA_TOOL_OPTIONS": "-Xss512m -Djava.io.tmpdir=%s" % d})
     out = p.stdout or ""
     if ("Invariant %s is violated" % inv) not in out:
         raise V.Inconclusive("expected-violation configuration %s did not violate %s" % (cfg, inv))
